@@ -69,6 +69,18 @@ fn frequency_config(shape: Shape, weights: &[u32], draws: u64, seed: u64, rep: &
             }
             continue;
         }
+        if log.is_empty() {
+            if let SelOut::Err(t) = &out {
+                // no member was asked although the weights are not all zero
+                let sig = if err_tokens(t).iter().any(|x| *x == "ZeroWeight" || *x == "InsufficientNonZero") {
+                    "C13/zero-weight-error-although-total-weight-positive"
+                } else {
+                    "C13/selection-refused"
+                };
+                rep.violation(sig, || json!({"config": cfg, "draw": d, "weight_total": total, "observed": t}));
+                return;
+            }
+        }
         if log.len() != 1 {
             rep.violation("C13/delegation-count", || json!({"config": cfg, "draw": d, "members_called": log, "observed": format!("{out:?}")}));
             return;
